@@ -2498,7 +2498,8 @@ func (w *vpWorld) generateFaults(o vpGenOpts) {
 				if reg.withErr && rng.Intn(2) == 0 {
 					how = "err"
 				}
-				w.beh[[2]int{reg.idx + 1, 2 + rng.Intn(2)}] = how
+				// (the 2nd .. 6th scope: later ones fail while the creating scope already has live children)
+				w.beh[[2]int{reg.idx + 1, 2 + rng.Intn(5)}] = how
 			}
 		}
 	}
@@ -3494,20 +3495,20 @@ func (r *vpRun) cancelledBuild(rng *rand.Rand) {
 			break
 		}
 	}
-	closedOnce := func(when string) {
+	closedOnce := func(when, tags string) {
 		for _, a := range as {
 			if n := a.closes.Load(); n != 1 {
-				w.fail("C10", "cancelled-build scenario: singleton A closed %d times %s", n, when)
+				w.fail(tags, "cancelled-build scenario: singleton A closed %d times %s", n, when)
 			}
 		}
 		for _, b := range bs {
 			if n := b.closes.Load(); n != 1 {
-				w.fail("C10", "cancelled-build scenario: singleton B closed %d times %s", n, when)
+				w.fail(tags, "cancelled-build scenario: singleton B closed %d times %s", n, when)
 			}
 		}
 		for _, x := range cs {
 			if n := x.closes.Load(); n != 1 {
-				w.fail("C10", "cancelled-build scenario: a group singleton closed %d times %s", n, when)
+				w.fail(tags, "cancelled-build scenario: a group singleton closed %d times %s", n, when)
 			}
 		}
 	}
@@ -3516,7 +3517,7 @@ func (r *vpRun) cancelledBuild(rng *rand.Rand) {
 		if !errors.As(err, &be) || !errors.Is(err, context.Canceled) {
 			w.fail("C15", "cancelled-build scenario: Build failed with %v (want a BuildError wrapping context.Canceled)", err)
 		}
-		closedOnce("by a Build that reported the cancellation")
+		closedOnce("by a Build that reported the cancellation (a failed Build leaves no partial state behind)", "C10,C15")
 		r.emit("p verdict", "ok")
 		return
 	}
@@ -3540,7 +3541,7 @@ func (r *vpRun) cancelledBuild(rng *rand.Rand) {
 		}
 	}
 	prov.Close()
-	closedOnce("after Provider.Close")
+	closedOnce("after Provider.Close", "C10")
 	r.emit("p verdict", "ok")
 }
 
@@ -4380,6 +4381,281 @@ func (r *vpRun) valueDisposables(rng *rand.Rand) {
 	r.stats["value_disposables"]++
 }
 
+// failedSibling (C13, C14): creating one more child scope fails (a scoped initializer returns an error or panics)
+// while the creating scope - or the provider - already has live children. The half-built scope is cleaned up; its
+// siblings are untouched: they keep working, and Close of the parent / the provider still closes every one of them.
+type vfSvc struct{ closes atomic.Int32 }
+
+func (x *vfSvc) Close() error { x.closes.Add(1); return nil }
+
+func (r *vpRun) failedSibling(rng *rand.Rand) {
+	w := r.newWorld(rng)
+	defer r.emit("p verdict", "ok")
+	var failInit atomic.Int32 // 0 ok, 1 error, 2 panic
+	c := NewCollection()
+	e1 := c.AddScoped(func() error {
+		switch failInit.Load() {
+		case 1:
+			return errors.New("initializer failed")
+		case 2:
+			panic("initializer panicked")
+		}
+		return nil
+	})
+	e2 := c.AddScoped(func() *vfSvc { return &vfSvc{} })
+	if e1 != nil || e2 != nil {
+		w.fail("C17", "failed-sibling scenario: a valid registration was rejected: %v %v", e1, e2)
+		return
+	}
+	var p Provider
+	var err error
+	if guard(w, "Build", func() { p, err = c.Build() }) || err != nil {
+		w.fail("C08", "failed-sibling scenario: Build failed: %v", err)
+		return
+	}
+	depth := rng.Intn(3) // 0: children of the provider; 1: children of a scope; 2: of a nested scope
+	var owner interface {
+		CreateScope(context.Context) (Scope, error)
+		Close() error
+	} = p
+	var chain []Scope
+	for d := 0; d < depth; d++ {
+		sc, e := owner.CreateScope(context.Background())
+		if e != nil {
+			w.fail("C08", "failed-sibling scenario: CreateScope failed: %v", e)
+			p.Close()
+			return
+		}
+		chain = append(chain, sc)
+		owner = sc
+	}
+	nsib := 1 + rng.Intn(3)
+	var sibs []Scope
+	var svcs []*vfSvc
+	for i := 0; i < nsib; i++ {
+		var ctx context.Context
+		if rng.Intn(2) == 0 {
+			ctx = context.Background()
+		}
+		sc, e := owner.CreateScope(ctx)
+		if e != nil {
+			w.fail("C08", "failed-sibling scenario: CreateScope failed: %v", e)
+			p.Close()
+			return
+		}
+		v, _ := Resolve[*vfSvc](sc)
+		sibs = append(sibs, sc)
+		svcs = append(svcs, v)
+	}
+	nfail := 1 + rng.Intn(2)
+	for i := 0; i < nfail; i++ {
+		failInit.Store(int32(1 + rng.Intn(2)))
+		var e error
+		guard(w, "CreateScope", func() { _, e = owner.CreateScope(context.Background()) })
+		failInit.Store(0)
+		if e == nil {
+			w.fail("C15,C02", "failed-sibling scenario: CreateScope succeeded although a scoped initializer failed")
+		}
+	}
+	for i, sc := range sibs {
+		if v, e := Resolve[*vfSvc](sc); e != nil || v != svcs[i] {
+			w.fail("C13,C02", "failed-sibling scenario: after a failed creation of one more child, existing child #%d resolves its scoped service to %p (%v), was %p", i, v, e, svcs[i])
+		}
+		if svcs[i] != nil && svcs[i].closes.Load() != 0 {
+			w.fail("C10", "failed-sibling scenario: the failed creation of one more child closed an instance of existing child #%d", i)
+		}
+	}
+	var ce error
+	guard(w, "Close", func() { ce = owner.Close() })
+	if ce != nil {
+		w.fail("C12", "failed-sibling scenario: Close of the parent returned %v", ce)
+	}
+	for i, sc := range sibs {
+		if _, e := Resolve[*vfSvc](sc); !errors.Is(e, ErrScopeDisposed) && !errors.Is(e, ErrProviderDisposed) {
+			w.fail("C13", "failed-sibling scenario: after an earlier creation of one more child had failed, Close of the parent left child #%d open (Resolve: %v)", i, e)
+		}
+		if _, e := sc.CreateScope(nil); !errors.Is(e, ErrScopeDisposed) && !errors.Is(e, ErrProviderDisposed) {
+			w.fail("C13", "failed-sibling scenario: child #%d still creates scopes after its parent's Close: %v", i, e)
+		}
+		if svcs[i] != nil && svcs[i].closes.Load() != 1 {
+			w.fail("C10,C13,C14", "failed-sibling scenario: the scoped instance of child #%d was closed %d times by the parent's Close", i, svcs[i].closes.Load())
+		}
+		if sc.Context().Err() == nil {
+			w.fail("C14", "failed-sibling scenario: the context of child #%d is not cancelled after its parent's Close", i)
+		}
+	}
+	if depth > 0 {
+		p.Close()
+	}
+	if n, _ := vpTableLen(p, "scopesMu", "scopes"); n != 0 {
+		w.fail("C14", "failed-sibling scenario: the closed provider still tracks %d scopes", n)
+	}
+	r.stats["failed_sibling"]++
+}
+
+// failedBuildScopes (C10, C11, C13): a singleton constructor opens a scope through the injected Provider (or Scope)
+// during Build, resolves a scoped disposable in it and keeps it open; a later singleton constructor fails. The failed
+// Build leaves nothing behind: that scope is closed, its instance is closed once - and before the singletons it may
+// be using, as in Provider.Close.
+type vxStamp struct {
+	closes atomic.Int32
+	at     atomic.Int32
+	seq    *atomic.Int32
+}
+
+func (x *vxStamp) Close() error { x.closes.Add(1); x.at.Store(x.seq.Add(1)); return nil }
+
+type vxW struct{ vxStamp }
+type vxS struct{ vxStamp }
+type vxZ struct{}
+
+func (r *vpRun) failedBuildScopes(rng *rand.Rand) {
+	w := r.newWorld(rng)
+	defer r.emit("p verdict", "ok")
+	c := NewCollection()
+	var seq atomic.Int32
+	var kept Scope
+	var keptS *vxS
+	var ws []*vxW
+	var openErr error
+	viaScope := rng.Intn(3) == 0
+	nested := rng.Intn(2) == 0
+	open := func(from interface {
+		CreateScope(context.Context) (Scope, error)
+	}) {
+		sc, e := from.CreateScope(context.Background())
+		if e == nil && nested {
+			sc, e = sc.CreateScope(nil)
+		}
+		if e != nil {
+			openErr = e
+			return
+		}
+		kept = sc
+		keptS, openErr = Resolve[*vxS](sc)
+	}
+	var e1 error
+	if viaScope {
+		e1 = c.AddSingleton(func(sc Scope) *vxW { x := &vxW{vxStamp{seq: &seq}}; ws = append(ws, x); open(sc); return x })
+	} else {
+		e1 = c.AddSingleton(func(p Provider) *vxW { x := &vxW{vxStamp{seq: &seq}}; ws = append(ws, x); open(p); return x })
+	}
+	e2 := c.AddScoped(func() *vxS { return &vxS{vxStamp{seq: &seq}} })
+	e3 := c.AddSingleton(func(_ *vxW) (*vxZ, error) { return nil, errors.New("boom") })
+	if e1 != nil || e2 != nil || e3 != nil {
+		w.fail("C17", "failed-build-scopes scenario: a valid registration was rejected: %v %v %v", e1, e2, e3)
+		return
+	}
+	var err error
+	var p Provider
+	if guard(w, "Build", func() { p, err = c.Build() }) {
+		return
+	}
+	if err == nil {
+		w.fail("C15", "failed-build-scopes scenario: Build succeeded although a singleton constructor returned an error")
+		p.Close()
+		return
+	}
+	if openErr != nil || kept == nil || keptS == nil || len(ws) != 1 {
+		w.fail("C08,C13", "failed-build-scopes scenario: opening a scope inside a singleton constructor during Build failed: %v", openErr)
+		return
+	}
+	if n := keptS.closes.Load(); n != 1 {
+		w.fail("C10,C11,C13", "failed-build-scopes scenario: Build failed after a singleton constructor had opened a scope; the disposable resolved in that scope was closed %d times by the failed Build (the singletons were closed: it outlives them)", n)
+	}
+	if n := ws[0].closes.Load(); n != 1 {
+		w.fail("C10", "failed-build-scopes scenario: the singleton created before the failure was closed %d times by the failed Build", n)
+	}
+	if keptS.closes.Load() == 1 && ws[0].closes.Load() == 1 && keptS.at.Load() > ws[0].at.Load() {
+		w.fail("C11", "failed-build-scopes scenario: the failed Build closed a singleton before the instance of a scope that was opened during Build (scopes are closed before singletons)")
+	}
+	if _, e := kept.Get(scopeType); !errors.Is(e, ErrScopeDisposed) && !errors.Is(e, ErrProviderDisposed) {
+		w.fail("C13,C14", "failed-build-scopes scenario: the scope a singleton constructor opened during the failed Build is still usable: %v", e)
+	}
+	if kept.Context().Err() == nil {
+		w.fail("C14", "failed-build-scopes scenario: the context of the scope opened during the failed Build is not cancelled")
+	}
+	r.stats["failed_build_scopes"]++
+}
+
+// derivedContext (C18, C13): a context derived from one scope's context (a value and a cancellation of its own on top
+// of a request scope's context) is handed to Provider.CreateScope / Scope.CreateScope. The new scope is a scope of
+// its own whose context is linked to THAT context: the caller's values are visible through it, FromContext leads to
+// the new scope, cancelling the derived context closes the new scope and nothing else, and the end of the request
+// scope (which cancels everything derived from its context) closes it too.
+type vdKey struct{ k string }
+
+func (r *vpRun) derivedContext(rng *rand.Rand) {
+	w := r.newWorld(rng)
+	defer r.emit("p verdict", "ok")
+	c := NewCollection()
+	if e := c.AddScoped(func(ctx context.Context, sc Scope) *vfSvc { return &vfSvc{} }); e != nil {
+		w.fail("C17", "derived-context scenario: a valid registration was rejected: %v", e)
+		return
+	}
+	var p Provider
+	var err error
+	if guard(w, "Build", func() { p, err = c.Build() }) || err != nil {
+		w.fail("C08", "derived-context scenario: Build failed: %v", err)
+		return
+	}
+	defer p.Close()
+	base := context.WithValue(context.Background(), vdKey{"req"}, "request-1")
+	req, e := p.CreateScope(base)
+	if e != nil {
+		w.fail("C08", "derived-context scenario: CreateScope failed: %v", e)
+		return
+	}
+	jobCtx, cancelJob := context.WithCancel(context.WithValue(req.Context(), vdKey{"job"}, "job-7"))
+	defer cancelJob()
+	viaProvider := rng.Intn(2) == 0
+	var job Scope
+	if viaProvider {
+		guard(w, "CreateScope", func() { job, e = p.CreateScope(jobCtx) })
+	} else {
+		guard(w, "CreateScope", func() { job, e = req.CreateScope(jobCtx) })
+	}
+	how := map[bool]string{true: "Provider.CreateScope", false: "Scope.CreateScope"}[viaProvider]
+	if e != nil || job == nil {
+		w.fail("C18,C08", "derived-context scenario: %s with a context derived from a scope's context failed: %v", how, e)
+		return
+	}
+	jc := job.Context()
+	if jc.Value(vdKey{"job"}) != "job-7" || jc.Value(vdKey{"req"}) != "request-1" {
+		w.fail("C18", "derived-context scenario: the context of the scope made by %s does not carry the values of the context it was given (job=%v req=%v)", how, jc.Value(vdKey{"job"}), jc.Value(vdKey{"req"}))
+	}
+	if fc, fe := FromContext(jc); fe != nil || fc != job {
+		w.fail("C18", "derived-context scenario: FromContext on the new scope's context does not return the new scope (%v)", fe)
+	}
+	if fc, fe := FromContext(req.Context()); fe != nil || fc != req {
+		w.fail("C18", "derived-context scenario: FromContext on the request scope's context no longer returns the request scope (%v)", fe)
+	}
+	if v, ge := Resolve[*vfSvc](job); ge != nil || v == nil {
+		w.fail("C18,C08", "derived-context scenario: the new scope does not resolve: %v", ge)
+	}
+	if rng.Intn(2) == 0 {
+		// the caller's own cancellation ends the new scope, and only it
+		cancelJob()
+		w.waitClosed(job, "scope whose derived context was cancelled")
+		if _, ge := job.Get(scopeType); !errors.Is(ge, ErrScopeDisposed) {
+			w.fail("C13,C18", "derived-context scenario: cancelling the context given to %s did not close the scope made with it: %v", how, ge)
+		}
+		if _, ge := req.Get(scopeType); ge != nil {
+			w.fail("C13,C18", "derived-context scenario: cancelling the derived context closed the request scope: %v", ge)
+		}
+	} else {
+		// the end of the request scope cancels everything derived from its context
+		req.Close()
+		w.waitClosed(job, "scope whose context derives from a closed scope's context")
+		if _, ge := job.Get(scopeType); !errors.Is(ge, ErrScopeDisposed) {
+			w.fail("C13,C18", "derived-context scenario: closing the request scope did not close the scope whose context derives from the request scope's context: %v", ge)
+		}
+	}
+	req.Close()
+	job.Close()
+	r.stats["derived_context"]++
+}
+
 func (r *vpRun) watched(name string, f func()) (hung bool) {
 	done := make(chan struct{})
 	go func() {
@@ -4508,6 +4784,24 @@ func TestVerifCore(t *testing.T) {
 		}
 		if it%50 == 27 {
 			if r.watched("varyingConcrete", func() { r.varyingConcrete(rng) }) {
+				break
+			}
+			continue
+		}
+		if it%50 == 25 {
+			if r.watched("derivedContext", func() { r.derivedContext(rng) }) {
+				break
+			}
+			continue
+		}
+		if it%50 == 15 || it%50 == 45 {
+			if r.watched("failedBuildScopes", func() { r.failedBuildScopes(rng) }) {
+				break
+			}
+			continue
+		}
+		if it%50 == 5 || it%50 == 35 {
+			if r.watched("failedSibling", func() { r.failedSibling(rng) }) {
 				break
 			}
 			continue
